@@ -52,7 +52,6 @@ def main(ctx, pairs=None, budget_list=None, hist=None, selector=in_bounds, label
         "float values are the IEEE bit patterns of a small domain (no NaN); integer-to-float conversion only for -1..2",
         "PERMISSIVE points of Logix.tla (zero counts, mid-element offsets, cross-type writes of representable values)",
     ]
-    lines = []
     configs = [(t1, t2, False) for (t1, t2) in pairs] + [("INT", "REAL", True)]
     for (t1, t2, many) in configs:
         name = "%s_%s%s" % (t1, t2, "_many" if many else "")
@@ -65,34 +64,38 @@ def main(ctx, pairs=None, budget_list=None, hist=None, selector=in_bounds, label
         mems = cat.mems
         if quick and len(mems) > 40:
             mems = [mems[0]] + rng.sample(mems[1:], 39)
-        elif not quick and len(mems) > 400:
-            mems = [mems[0]] + rng.sample(mems[1:], 399)
-        jobs = []
-        for m in mems:
-            rs = reqs
-            if quick and len(rs) > 700:
-                rs = rng.sample(rs, 700)
-            for k in range(0, len(rs), 100):
-                jobs.append((cat.cfg, m["mem"], rs[k:k + 100]))
-        out = core.pmap(logixlib.exec_fan, jobs, chunksize=1)
-        lines += out
+        elif not quick and len(mems) > 160:
+            mems = [mems[0]] + rng.sample(mems[1:], 159)
+        def settle(lines):
+            """validate and report a batch at once (the thorough tier runs millions of steps: nothing is kept)"""
+            for ln in lines:
+                for e in ln["ev"]:
+                    r = e["r"]
+                    ev.case(key=(name, json.dumps(ln["from"]) if ln["fan"] else "h%d" % id(ln), json.dumps(r)), nontrivial=nontrivial(r))
+            if lines and not ev.samples:
+                ev.sample({"cfg": lines[0]["cfg"], "from": lines[0]["from"], "event": lines[0]["ev"][len(lines[0]["ev"]) // 2]})
+                ev.sample({"history": [{"r": e["r"], "rpy": e["rpy"]} for e in lines[-1]["ev"][:4]]})
+            bad = logixlib.validate(ctx, lines, label + ":" + name)
+            logixlib.report(ctx, bad, label)
         # random histories
         nh = hist if hist is not None else (60 if quick else 600)
         hjobs = []
         for _ in range(nh):
             seq = [rng.choice(reqs) for _ in range(14)]
             hjobs.append((cat.cfg, cat.mems[0]["mem"], seq))
-        lines += core.pmap(logixlib.exec_history, hjobs, chunksize=4)
-    for ln in lines:
-        for e in ln["ev"]:
-            r = e["r"]
-            ev.case(key=(json.dumps(ln["cfg"]["tags"][0]["type"]), json.dumps(ln["from"]) if ln["fan"] else id(ln),
-                         json.dumps(r)), nontrivial=nontrivial(r))
-    if lines:
-        ev.sample({"cfg": lines[0]["cfg"], "from": lines[0]["from"], "event": lines[0]["ev"][len(lines[0]["ev"]) // 2]})
-        ev.sample({"history": [{"r": e["r"], "rpy": e["rpy"]} for e in lines[-1]["ev"][:4]]})
-    bad = logixlib.validate(ctx, lines, label)
-    logixlib.report(ctx, bad, label)
+        hlines = core.pmap(logixlib.exec_history, hjobs, chunksize=4)
+        for at in range(0, len(mems), 40):
+            jobs = []
+            for m in mems[at:at + 40]:
+                rs = reqs
+                if quick and len(rs) > 700:
+                    rs = rng.sample(rs, 700)
+                for k in range(0, len(rs), 100):
+                    jobs.append((cat.cfg, m["mem"], rs[k:k + 100]))
+            settle(core.pmap(logixlib.exec_fan, jobs, chunksize=1) + hlines)
+            hlines = []
+            if ctx.nviol > 50:
+                break
     ev.extra["type_pairs"] = ["%s/%s" % p for p in pairs]
 
 
